@@ -712,9 +712,78 @@ def inline_new_helpers(trees: Dict[str, ast.Module], known: Set[str]) -> List[st
     if expanded:
         for t in trees.values():
             for fn in [n for n in ast.walk(t) if isinstance(n, FuncDef)]:
+                _beta_local_lambdas(fn)
                 _fold_generated_aliases(fn)
             ast.fix_missing_locations(t)
     return expanded
+
+
+def _beta_local_lambdas(fn) -> None:
+    """`f = lambda a, b: E` bound once in the function and only ever called (`f(x, y)` with plain arguments, or one use per call with any
+    argument) is read as E with its parameters replaced - a callable handed to an expanded higher-order helper is then read in place."""
+    asg: Dict[str, List[ast.Assign]] = {}
+    for st in _own_nodes(fn):
+        if isinstance(st, ast.Assign) and len(st.targets) == 1 and isinstance(st.targets[0], ast.Name):
+            asg.setdefault(st.targets[0].id, []).append(st)
+    done_any = False
+    for name, sts in asg.items():
+        if len(sts) != 1 or not isinstance(sts[0].value, ast.Lambda):
+            continue
+        lam = sts[0].value
+        a = lam.args
+        if a.vararg or a.kwarg or a.kwonlyargs or a.defaults:
+            continue
+        params = [x.arg for x in a.posonlyargs + a.args]
+        parents: Dict[int, ast.AST] = {}
+        for n in ast.walk(fn):
+            for c in ast.iter_child_nodes(n):
+                parents[id(c)] = n
+        uses = [n for n in ast.walk(fn) if isinstance(n, ast.Name) and n.id == name and n is not sts[0].targets[0]]
+        calls = []
+        ok = bool(uses)
+        for u in uses:
+            par = parents.get(id(u))
+            if isinstance(par, ast.Call) and par.func is u and not par.keywords and len(par.args) == len(params) \
+                    and not any(isinstance(x, ast.Starred) for x in par.args):
+                n_use = {p_: sum(1 for x in ast.walk(lam.body) if isinstance(x, ast.Name) and x.id == p_) for p_ in params}
+                if all(isinstance(arg, (ast.Name, ast.Attribute, ast.Constant)) or n_use[p_] <= 1 for p_, arg in zip(params, par.args)):
+                    calls.append(par)
+                    continue
+            ok = False
+        if not ok:
+            continue
+
+        class _B(ast.NodeTransformer):
+            def visit_Call(self, node: ast.Call):
+                self.generic_visit(node)
+                if any(node is c for c in calls):
+                    bind = dict(zip(params, node.args))
+
+                    class _S(ast.NodeTransformer):
+                        def visit_Name(self, n):
+                            return copy.deepcopy(bind[n.id]) if n.id in bind and isinstance(n.ctx, ast.Load) else n
+                    return ast.copy_location(_S().visit(copy.deepcopy(lam.body)), node)
+                return node
+        _B().visit(fn)
+
+        def drop(stmts: List[ast.stmt]) -> List[ast.stmt]:
+            keep = []
+            for st in stmts:
+                if st is sts[0]:
+                    continue
+                for fld in ("body", "orelse", "finalbody"):
+                    v = getattr(st, fld, None)
+                    if isinstance(v, list) and v and isinstance(v[0], ast.stmt) and not isinstance(st, (ast.FunctionDef, ast.AsyncFunctionDef, ast.ClassDef)):
+                        setattr(st, fld, drop(v) or [ast.copy_location(ast.Pass(), st)])
+                if isinstance(st, ast.Try):
+                    for h in st.handlers:
+                        h.body = drop(h.body) or [ast.copy_location(ast.Pass(), st)]
+                keep.append(st)
+            return keep
+        fn.body = drop(fn.body)
+        done_any = True
+    if done_any:
+        ast.fix_missing_locations(fn)
 
 
 def _fold_generated_aliases(fn) -> None:
